@@ -5,6 +5,8 @@ import (
 	"reflect"
 	"unsafe"
 
+	"github.com/paulmach/orb/verifrt"
+
 	"verif/sim/core"
 )
 
@@ -15,24 +17,6 @@ import (
 func Image(root interface{}) (hash uint64, nodes int) {
 	w := &imager{seen: map[uintptr]bool{}}
 	v := reflect.ValueOf(root)
-	// The root object's own integer and boolean fields (usage counters, epochs,
-	// flags kept next to the tree) are not part of the node tree: a query that
-	// counts itself atomically leaves the tree bit-identical. Everything else -
-	// pointers, slices, arrays, floats (the bound), nested structs, and every
-	// field of every node - is hashed.
-	if v.Kind() == reflect.Ptr && !v.IsNil() && v.Elem().Kind() == reflect.Struct {
-		st := v.Elem()
-		w.nodes++
-		for i := 0; i < st.NumField(); i++ {
-			switch st.Field(i).Kind() {
-			case reflect.Bool, reflect.Int, reflect.Int8, reflect.Int16, reflect.Int32, reflect.Int64,
-				reflect.Uint, reflect.Uint8, reflect.Uint16, reflect.Uint32, reflect.Uint64, reflect.Uintptr:
-				continue
-			}
-			w.walk(st.Field(i), 1)
-		}
-		return w.h, w.nodes
-	}
 	w.walk(v, 0)
 	return w.h, w.nodes
 }
@@ -97,7 +81,15 @@ func (w *imager) walk(v reflect.Value, depth int) {
 			// taking its own lock. What they protect is still hashed.
 			return
 		}
+		t := v.Type()
 		for i := 0; i < v.NumField(); i++ {
+			// Usage counters: integer fields that library code only ever increments (or
+			// returns from a getter) cannot influence an answer and are not part of the
+			// tree. Which fields those are is decided statically by the instrumenter
+			// (verifrt.CounterOnlyFields); a field that is loaded anywhere else is hashed.
+			if verifrt.CounterOnlyFields[t.PkgPath()+"."+t.Name()+"."+t.Field(i).Name] {
+				continue
+			}
 			w.walk(v.Field(i), depth+1)
 		}
 	case reflect.Array:
